@@ -135,7 +135,7 @@ class tcp_opt (object):
     else:
       #self.msg('(tcp parse_options) warning, unknown option %x '
       #         % (ord(arr[i]),))
-      o.val = arr[i+2:i+2+length]
+      o.val = arr[i+2:i+length]
 
     return offset+length,o
 
@@ -213,7 +213,7 @@ class mp_unknown (mptcp_opt):
     o = cls()
     o.type = buf[offset]
     length = buf[offset+1]
-    o.data = buf[offset+2:offset+2+length]
+    o.data = buf[offset+2:offset+length]
     try:
       self.subtype = (buf[offset+2] & 0xf0) >> 4
     except:
